@@ -249,7 +249,10 @@ class NPFacade:
         raise NotImplementedError
 
     def round(s, x, decimals=0):
+        if isinstance(x, SAbs): x = x._polar()
         if not isinstance(x, SC): return real_np.round(x, decimals)
+        if core.CTX.extra.get('decimal_model') and not x.p.is_const():
+            return core.sym_round(x, decimals)
         if x.p.is_const():
             c = x.p.const_value()
             return F(int(real_np.round(float(c.re))))
@@ -266,6 +269,8 @@ class NPFacade:
 
     def floor(s, x):
         if not isinstance(x, SC): return real_np.floor(x)
+        if core.CTX.extra.get('decimal_model') and not x.p.is_const():
+            return core.sym_floor(x)
         if x.p.is_const():
             import math
             return F(math.floor(x.p.const_value().re))
